@@ -7,10 +7,14 @@ VERIF = os.path.dirname(os.path.dirname(os.path.abspath(__file__)))
 sys.path.insert(0, VERIF)
 from rules import facts, c16
 inv = {}
+per = {}
 facts.extract_many(list(facts.CONFIGS))
 for cfg in facts.CONFIGS:
     for P in facts.load(cfg):
-        for k, c in c16.other_unwraps(P).items():
+        per[P.name] = dict(sorted(c16.other_unwraps(P).items()))
+        for k, c in per[P.name].items():
             inv[k] = max(inv.get(k, 0), c)
-json.dump(dict(sorted(inv.items())), open(os.path.join(VERIF, "tables", "unwrap_inventory.json"), "w"), indent=1)
-print(len(inv), "entries")
+out = dict(sorted(inv.items()))
+out["_per_config"] = per
+json.dump(out, open(os.path.join(VERIF, "tables", "unwrap_inventory.json"), "w"), indent=1)
+print(len(inv), "entries,", len(per), "configurations")
